@@ -342,6 +342,9 @@ func (g *genCtx) genCtor(s int) *Func {
 		f.ErrExtra = g.r.Range(1, 2) // two error results: the other one stays nil
 	}
 	f.Reenter = g.r.P(ft.PReenter)
+	if f.Reenter {
+		g.reenterShape(f, s)
+	}
 	maxT := minT
 	wild := g.r.P(ft.Wild)
 	if wild {
@@ -359,7 +362,7 @@ func (g *genCtx) genCtor(s int) *Func {
 		f.Params = oneObject(f.Params)
 	}
 	f.Variadic = ft.Variadic && g.r.P(ft.PVariadic)
-	f.Callback = ft.Callbacks && g.r.P(0.5)
+	f.Callback = f.Callback || (ft.Callbacks && g.r.P(0.5))
 	return f
 }
 
@@ -484,6 +487,9 @@ func (g *genCtx) genDecorator(s int) *Func {
 			for _, p := range f.LeafParams() {
 				if p.Key == lr[0].Keys[0] {
 					f.Reenter = true
+					if g.r.P(0.4) {
+						f.ReCB, f.Callback = true, true
+					}
 				}
 			}
 		}
@@ -1168,4 +1174,21 @@ func oneObject(ps []Param) []Param {
 	var leaves []Param
 	collectParams(ps, &leaves)
 	return []Param{{Kind: PObj, Fields: leaves}}
+}
+
+// reenterShape decides what the re-entrant function asks for: its own first
+// result (default), or -- a nested demand through a different path -- any key
+// from any scope; from its body, or from its callback if it has one.
+func (g *genCtx) reenterShape(f *Func, s int) {
+	if g.r.P(0.5) {
+		rs := g.pickScope()
+		if ks := g.pickParamKeys(rs, g.ft.NT, 1, true); len(ks) == 1 {
+			k := ks[0]
+			f.ReKey, f.ReScope = &k, rs
+		}
+	}
+	f.ReCB = g.r.P(0.4)
+	if f.ReCB {
+		f.Callback = true
+	}
 }
